@@ -24,6 +24,15 @@ fn messy_msgs(v: &Messy) -> Vec<DltMessage> {
     for m in msgs.iter_mut() {
         m.index *= stride;
     }
+    // message indices close to the end of the u32 range (files are numbered from a start index)
+    if (v.1 / 256) % 4 == 1 && stride == 1 {
+        let n = msgs.len();
+        for (i, m) in msgs.iter_mut().enumerate() {
+            if i >= n / 2 {
+                m.index = u32::MAX - 60_000 - n as u32 + i as u32;
+            }
+        }
+    }
     msgs
 }
 
